@@ -137,6 +137,13 @@ class temperature(PseudoNetCDFFile):
             t, d = self.rffile.read(self.id_fmt)
         self.time_step = timediff((self.start_date, self.start_time), (d, t))
         self.rffile.infile.seek(0, 2)
+        # the step count below comes from the last record's stamp: a file
+        # that ends inside a time step would get a zero-filled last step
+        stepsize = self.area_padded_size + self.padded_size * self.nlayers
+        if (self.rffile.infile.tell() - self.data_start_byte) % stepsize != 0:
+            raise ValueError('File ends inside a time step (%d bytes, ' %
+                             self.rffile.infile.tell() +
+                             'time steps have %d bytes)' % stepsize)
         self.rffile.previous()
         self.end_time, self.end_date = self.rffile.read(self.id_fmt)
         self.time_step_count = int(timediff(
